@@ -1,1 +1,26 @@
-fn main() { println!("hello"); }
+//! fcverif: conformance harness binding the TLA+ specifications in /verif/spec to the
+//! flatcontainer crate in /repo (path dependency, rebuilt from the working tree).
+mod ic;
+mod util;
+
+fn arg(args: &[String], name: &str) -> Option<String> {
+    args.iter().position(|a| a == name).and_then(|i| args.get(i + 1).cloned())
+}
+
+fn main() {
+    let args: Vec<String> = std::env::args().collect();
+    let cmd = args.get(1).map(String::as_str).unwrap_or("");
+    match cmd {
+        "ic-replay" => {
+            let file = args.get(2).expect("edge file");
+            let prop = arg(&args, "--prop").expect("--prop");
+            let out = arg(&args, "--out").expect("--out");
+            ic::cmd_replay(file, &prop, &out);
+        }
+        "profile" => println!("{}", util::profile_name()),
+        _ => {
+            eprintln!("usage: fcverif <ic-replay|...>");
+            std::process::exit(2);
+        }
+    }
+}
